@@ -24,7 +24,8 @@ import (
 
 func zzTpl(id string) corev1.PodTemplateSpec {
 	return corev1.PodTemplateSpec{
-		ObjectMeta: metav1.ObjectMeta{Labels: map[string]string{"app": "agent"}},
+		// (the versions differ in the pod template's own metadata as well as in the image)
+		ObjectMeta: metav1.ObjectMeta{Labels: map[string]string{"app": "agent", "version": id}},
 		Spec:       corev1.PodSpec{Containers: []corev1.Container{{Name: "agent", Image: "agent:" + id}}},
 	}
 }
@@ -288,6 +289,8 @@ func ZZ_C19_canaryCmds() {
 		// "fail leads to the rollback"
 		nondet.Assert("C19.fail.rollback", rerr == nil && final.Status.State == v1alpha1.ExtendedDaemonSetStatusStateCanaryFailed && final.Status.Canary == nil &&
 			final.Status.ActiveReplicaSet == "foo-a" && final.Spec.Template.Spec.Containers[0].Image == "agent:A")
+		// the whole template of the active replica set is restored, its own labels included
+		nondet.Assert("C19.fail.rollback-restores-the-whole-template", final.Spec.Template.Labels["version"] == "A")
 	}
 	nondet.Observe("state", string(final.Status.State))
 	nondet.Observe("active", final.Status.ActiveReplicaSet)
@@ -519,7 +522,8 @@ func ZZ_C19_canaryCommandSequences() {
 	case failed && validated:
 		// (fail and validate both accepted before any reconcile: the property does not say which one wins)
 	case failed:
-		nondet.Assert("C19.seq.fail-ends-in-the-rollback", final.Status.Canary == nil && final.Status.ActiveReplicaSet == "foo-a" && final.Spec.Template.Spec.Containers[0].Image == "agent:A")
+		nondet.Assert("C19.seq.fail-ends-in-the-rollback", final.Status.Canary == nil && final.Status.ActiveReplicaSet == "foo-a" && final.Spec.Template.Spec.Containers[0].Image == "agent:A" &&
+			final.Spec.Template.Labels["version"] == "A")
 	case validated:
 		nondet.Assert("C19.seq.validate-promotes", rerr == nil && final.Status.ActiveReplicaSet == "foo-b" && final.Status.Canary == nil)
 	case paused:
